@@ -123,6 +123,12 @@ func Read(p *parser.Parser, pos int64) (Table, error) {
 					Reason:    "overlapping ranges in class definition table",
 				}
 			}
+			if endGlyphID < startGlyphID {
+				return nil, &parser.InvalidFontError{
+					SubSystem: "opentype/classdef",
+					Reason:    "invalid range in class definition table",
+				}
+			}
 			prevEnd = endGlyphID
 
 			if classValue != 0 {
